@@ -12,7 +12,7 @@ package metautils
 //@ spec keepF(op sutils.FilterOperator, q float64, lo float64, hi float64) bool = ite(op == sutils.Equals, lo <= q && q <= hi, ite(op == sutils.NotEquals, !(lo == hi && q == lo), ite(op == sutils.GreaterThan, q < hi, ite(op == sutils.GreaterThanOrEqualTo, q <= hi, ite(op == sutils.LessThan, q > lo, ite(op == sutils.LessThanOrEqualTo, q >= lo, true))))))
 
 //@ func doesIntPassRangeFilter
-//@   props C03
+//@   props C02 C03
 //@   requires minVal <= maxVal
 //@   ensures result == keepI(op, lookupValue, minVal, maxVal)
 //@   pure
@@ -20,7 +20,7 @@ package metautils
 //@ end
 
 //@ func doesUintPassRangeFilter
-//@   props C03
+//@   props C02 C03
 //@   requires minVal <= maxVal
 //@   ensures result == keepU(op, lookupValue, minVal, maxVal)
 //@   pure
@@ -28,7 +28,7 @@ package metautils
 //@ end
 
 //@ func doesFloatPassRangeFilter
-//@   props C03
+//@   props C02 C03
 //@   requires minVal <= maxVal && !isNaN(lookupValue)
 //@   ensures result == keepF(op, lookupValue, minVal, maxVal)
 //@   pure
